@@ -44,10 +44,11 @@ struct SongOpts
     bool big_deltas;
     bool allow_cc_special;       // bank select etc.
     int force_division;          // 0 = random
+    bool devices;                // tracks may name their MIDI device (FF 09) at their start and switch it later: channels 16+ inside the player
     int game_ccs;                // 0: none; 1: controllers 112..119 of game MIDI dialects appear as plain controllers; 2: and exactly one CC110 (no CC111)
     bool restrikes;              // legato re-strikes of several held keys in one tick (note-offs and note-ons of the same keys together)
     SongOpts(): min_tracks(1), max_tracks(8), max_events(40), tempo_changes(true), loops(false), lone_eot(true),
-        sysex_meta(true), big_deltas(false), allow_cc_special(true), force_division(0), game_ccs(0), restrikes(true) {}
+        sysex_meta(true), big_deltas(false), allow_cc_special(true), force_division(0), devices(false), game_ccs(0), restrikes(true) {}
 };
 
 static inline SEv mk_chan(uint64_t tick, uint8_t status, int d0, int d1 = -1)
@@ -82,6 +83,8 @@ static inline Song gen_song(Rng &r, const SongOpts &o)
     {
         STrack &tr = s.tracks[(size_t)t];
         uint64_t tick = 0;
+        static const char *devnames[] = {"Port A", "Port B", "MPU-401"};
+        if(o.devices && r.chance(0.6)) { SEv e = mk_meta_text(0, 0x09, devnames[r.below(3)]); e.serial = 200000; tr.ev.push_back(e); }
         int chans[2] = { t % 16, (t + 8) % 16 };
         bool held[2][128]; memset(held, 0, sizeof(held));
         int nev = r.range(3, o.max_events);
@@ -179,6 +182,7 @@ static inline Song gen_song(Rng &r, const SongOpts &o)
             else e = mk_chan(tick, 0xB0 | ch, 7, r.range(0, 127));
             e.serial = serial++;
             tr.ev.push_back(e);
+            if(o.devices && r.chance(0.04)) { SEv dv = mk_meta_text(tick, 0x09, devnames[r.below(3)]); dv.serial = serial++; tr.ev.push_back(dv); }   // the track moves to another device
         }
         // release what is still held, maybe
         if(r.chance(0.7))
